@@ -87,7 +87,7 @@ Lemma event_level_cache_reachable' : forall A d ka kz name_of Zf (ps : list (pro
   arun A d ka kz name_of Zf sch (ainit A ps) = Some st ->
   (forall n, name_of (ka n) = n) -> (forall n, name_of (kz n) = n) ->
   (forall n v, In (n, v) (flat_map (zip_ops d) ps) -> Zf n = v) ->
-  exists sc, creachable fval_id deps0 (map (calls A d ka kz) ps) sc /\
+  exists sc, creachable fval_id deps0 crash0 (map (calls A d ka kz) ps) sc /\
              ents (acs A st) = ents sc /\ plain (acs A st) = plain sc.
 Proof.
   intros A d ka kz name_of Zf ps sch st Hrun H1 H2 H3.
